@@ -46,7 +46,7 @@ def run(chk, tier, scale=1.0):
         prun.fold(chk, "C02", rs)
     chk.count("enumerated_order_histories", len(cases))
     n = int((500 if tier == "quick" else 10000) * scale)
-    opts = {"weights": {"timeout": 8, "hurry": 5, "reply": 22, "password": 14, "stray": 3}}
+    opts = {"weights": {"timeout": 8, "hurry": 5, "reply": 22, "password": 14, "stray": 3}, "reply_kinds": ["OK", "OKacct", "NO", "AGAIN", "MORE", "junk", "OKspace"]}
     jobs = pcommon.hist_jobs(b, n, chk.seed, PROPS, opts=opts, tag="c02", want_class=False)
     prun.fold(chk, "C02", vcommon.pmap(prun.hist_worker, jobs, chunksize=4))
     chk.rule = ("all 120 arrival orders of {host result, ident, nick, user info, password} x 7 service tables (each protocol alone, mixed, two login services, none) "
